@@ -389,6 +389,38 @@ def run(rep, tier, seed):
                     fails.append((case, f"{solname}: did not converge from inside the basin on a dense-Jacobian model (succeed={sol.stats.succeed}, max|F| = {r!r})"))
             except Exception as ex:  # noqa
                 fails.append((case, f"{solname}: raised {type(ex).__name__} on a model with a dense Jacobian: {str(ex)[:80]}"))
+        # a strongly non-symmetric Jacobian (far from its transpose, not diagonally dominant), dense (made_numerical's default) and sparse:
+        # a solver that hands the matrix over in the wrong orientation still converges on symmetric or nearly symmetric systems
+        from Solverz import sin as _ssin
+        C3 = np.array([[1.0, 5.0, 4.0], [0.0, 2.0, -6.0], [0.5, 0.0, 3.0]])
+        for trial in range(2 if tier == "quick" else 8):
+            root3 = np.round(rng3.uniform(-0.8, 0.8, size=3), 3)
+            b3 = C3 @ root3 + 0.3 * np.sin(root3)
+            def gen3(sparse, b3=b3):
+                m = Model(); m.u = Var("u", [0.0]); m.w = Var("w", [0.0, 0.0])
+                m.e0 = Eqn("e0", 1.0 * m.u[0] + 5.0 * m.w[0] + 4.0 * m.w[1] + 0.3 * _ssin(m.u[0]) - float(b3[0]))
+                m.e1 = Eqn("e1", 2.0 * m.w[0] - 6.0 * m.w[1] + 0.3 * _ssin(m.w[0]) - float(b3[1]))
+                m.e2 = Eqn("e2", 0.5 * m.u[0] + 3.0 * m.w[1] + 0.3 * _ssin(m.w[1]) - float(b3[2]))
+                eqs, y0 = quiet(m.create_instance)
+                return quiet(made_numerical, eqs, y0, sparse=sparse, make_hvp=sparse)
+            for sparse in (False, True):
+                for solname in (("nr_method", "continuous_nr", "lm") if not sparse else tuple(solvers)):
+                    nruns += 1
+                    start3 = root3 + np.round(rng3.uniform(-0.05, 0.05, size=3), 3)
+                    case = dict(problem="C y + 0.3 sin y = b with the non-symmetric C = [[1,5,4],[0,2,-6],[0.5,0,3]] (generated code)",
+                                jacobian="dense" if not sparse else "sparse", root=[float(x) for x in root3], start=[float(x) for x in start3],
+                                tol=1e-9, solver=solname)
+                    try:
+                        sol = quiet(solvers[solname], gen3(sparse), start3.copy(), Opt(ite_tol=1e-9))
+                        yg = np.asarray(sol.y.array if hasattr(sol.y, "array") else sol.y, dtype=np.float64).reshape(-1)
+                        r = maxabs(C3 @ yg + 0.3 * np.sin(yg) - b3)
+                        if bool(sol.stats.succeed) != bool(r < 1e-9):
+                            fails.append((case, f"{solname}: succeed={sol.stats.succeed} but max|F(y)| = {r!r} at the returned point, tol = 1e-9"))
+                        elif not sol.stats.succeed:
+                            fails.append((case, f"{solname}: did not converge from a start 0.05 from a regular root of a model with a non-symmetric "
+                                                f"{'dense' if not sparse else 'sparse'} Jacobian (max|F| = {r!r}, {np.max(np.abs(yg - root3)):.3g} from the root)"))
+                    except Exception as ex:  # noqa
+                        fails.append((case, f"{solname}: raised {type(ex).__name__}: {str(ex)[:80]}"))
     except Exception as ex:  # noqa
         rep.notes.append(f"generated-model probe: {type(ex).__name__}: {str(ex)[:100]}")
     # (c) a kink of a Saturation between the start and the root (mildly non-smooth): recorded finding for sicnm
